@@ -217,6 +217,10 @@ func checkSigOpTx(c *vrun.Ctx, t, inKinds, ex tla.Value) {
 			key = "sigops:cost-missing-input-error-swallowed"
 		}
 		c.Violation(key, fmt.Sprintf("GetSigOpCost(inputs %v, coinbase=%v, bip16=%v, segwit=%v) = (%d, nil) although a spent output is not available; the cost is undefined there and an error is the only correct answer", names, cb, bip16, segwit, cost), replay)
+	case wantErr:
+		if code, ok := ruleCode(cerr); !ok || code != blockchain.ErrMissingTxOut {
+			c.Violation("sigops:cost-error-class", fmt.Sprintf("GetSigOpCost(inputs %v) fails with %v, expected the missing-output rule error", names, cerr), replay)
+		}
 	case !wantErr && cerr != nil:
 		c.Violation("sigops:cost-error", fmt.Sprintf("GetSigOpCost(inputs %v, coinbase=%v, bip16=%v, segwit=%v) fails with %v, the definition gives %d", names, cb, bip16, segwit, cerr, ex.F("cost").Int()), replay)
 	case !wantErr:
